@@ -789,6 +789,7 @@ fn main() {
         json!({"operations_full": full.iter().map(|o| json!({"message": show(o.text), "effect": format!("{:?}", o.micro)})).collect::<Vec<_>>(),
                "operations_small": small.iter().map(|o| show(o.text)).collect::<Vec<_>>(),
                "operations_medium": OPS_MEDIUM.iter().map(|o| show(o)).collect::<Vec<_>>(), "per_capacity": per_cap,
+               "predefined_errors": {"errors": mc::ifaces::qi::PREDEFINED.len(), "what": "each raised by a handler and read back: count 1, <standard number>,\"<description that is not empty>\", then 0,\"\" and count 0"},
                "large_capacity_line": {"capacities": if thorough { vec![300, 70000] } else { vec![300] }, "history": "CAP + 3 faulty messages, the count query after each, then everything read back; every prefix compared with a plain list", "operations": lst.transitions},
                "bounded_writer_conservation": {"writers": [16, 24, 32, 48], "operations": 9, "max_sequence_length": cdepth, "sequences": cst.transitions}}),
     );
